@@ -15,4 +15,5 @@ INVARIANT InsertedIsRemovable
 INVARIANT Emit
 PROPERTY P_RemoveExact
 PROPERTY P_BookTest
+PROPERTY P_RemoveMulti
 CHECK_DEADLOCK FALSE
